@@ -145,8 +145,19 @@ def plan_case(ctx, rng, k, drv):
     lats = ((np.array(nums, dtype=float) - lat_base) / 128.0)[:, None] * np.ones((1, 51))
     lons = np.ones((len(nums), 1)) * np.linspace(-60, 60, 51)[None, :]
     b = pod_pass(ctx, fmt, nums, start, lats, lons, rng)
+    # one or two interior lines flagged as unusable (fatal bit) in a third of the passes - and always in cases 2 and 3: their own
+    # rows are blanked (C07's subject), but their tie points are still lines of the nominal trajectory - the unflagged lines next
+    # to them are placed between them exactly as without the flag
+    flagged = set()
+    if len(nums) >= 8 and (k in (2, 3) or rng.random() < 0.33):
+        for i in rng.sample(range(2, len(nums) - 2), rng.choice([1, 2])):
+            b.quality[i] = 1 << 31
+            flagged.add(int(nums[i]))
     offs = timesgen.ideal_offsets(fmt, nums)
     kind, tu, te = error_profile(rng, start, start + int(offs[-1]), num / den / 1000.0)
+    if k in (2, 3):
+        kind, tu, te = ("const", [start - 3600000, start + int(offs[-1]) + 3600000], ["0.70", "0.70"]) if k == 2 else \
+            ("const-neg", [start - 3600000, start + int(offs[-1]) + 3600000], ["-1.30", "-1.30"])
     if k < 2:
         # corpus: a past failure runs first - error changing sign inside a gap-free pass (no line to recompute)
         kind, tu, te = "sign-change", [start, start + int(offs[-1])], ["-0.80", "0.90"]
@@ -159,7 +170,8 @@ def plan_case(ctx, rng, k, drv):
         line = n0 + np.rint((us - start * 1000) * den / (num * 1000.0))
         return (np.ones((m, 1)) * np.linspace(-60, 60, 51)[None, :], ((line - lat_base) / 128.0)[:, None] * np.ones((1, 51)))
 
-    payload = {"fmt": fmt, "nums": nums, "start": start, "profile": kind, "table_t": tu, "table_e": te, "stream": "plan"}
+    payload = {"fmt": fmt, "nums": nums, "start": start, "profile": kind, "table_t": tu, "table_e": te, "stream": "plan",
+               "flagged": sorted(flagged)}
     try:
         r, t_pre, t_post, lons_o, lats_o = run_reader(ctx, b, fmt, offsets=Offsets(tu, te), capture=cap, fake_missing=fake)
     except Exception as e:
@@ -184,11 +196,14 @@ def plan_case(ctx, rng, k, drv):
     shifted = [Fraction(nn) - e / Fraction(rate_us, 1000000) for nn, e in zip(nums, errs)]
     # property oracle: position = nominal trajectory at the fractional line number; time = time - error
     want_lat = (np.array([float(s) for s in shifted]) - lat_base) / 128.0
+    good = np.array([nn not in flagged for nn in nums], dtype=bool)
     dlat = np.abs(lats_o - want_lat[:, None])
-    if not np.all(np.isfinite(lats_o)) or dlat.max() > 2e-6:
+    dlat[~good] = 0.0        # the flagged lines' own rows are blank (C07)
+    if not np.all(np.isfinite(lats_o[good])) or dlat.max() > 2e-6:
         i = int(np.nanargmax(np.where(np.isfinite(dlat), dlat, np.inf).max(axis=1)))
-        ctx.violation("%s, lines %s.., clock error %s: line %d is placed at fractional line %.4f instead of %.4f" % (
-            fmt, nums[:4], kind, nums[i], float(lats_o[i, 25]) * 128 + lat_base, float(shifted[i])), payload, cls="plan-position")
+        ctx.violation("%s, lines %s.., clock error %s%s: line %d is placed at fractional line %.4f instead of %.4f" % (
+            fmt, nums[:4], kind, (", lines %s flagged" % sorted(flagged)) if flagged else "", nums[i],
+            float(lats_o[i, 25]) * 128 + lat_base, float(shifted[i])), payload, cls="plan-position")
     want_shift = [int(e * 1000) if e >= 0 else -int(-e * 1000) for e in errs]
     got_shift = (t_pre - t_post).tolist()
     if any(abs(a - b_) > 1 for a, b_ in zip(got_shift, want_shift)):
@@ -197,7 +212,8 @@ def plan_case(ctx, rng, k, drv):
     dec = lambda f: "%s%d.%09d" % ("-" if f < 0 else "", abs(f).numerator * 10 ** 9 // abs(f).denominator // 10 ** 9,
                                    abs(f).numerator * 10 ** 9 // abs(f).denominator % 10 ** 9)
     drv.append(("c09 plan %d %d %d %s %s" % (num, den, int(t_pre[0]), ",".join(map(str, nums)), ",".join(dec(e) for e in errs)),
-                {"missed_us": cap.get("missed_utcs"), "lat128": (lats_o[:, 25] * 128 + lat_base).tolist(), "shift": got_shift}, payload))
+                {"missed_us": cap.get("missed_utcs"), "shift": got_shift,
+                 "lat128": np.where(good, lats_o[:, 25] * 128 + lat_base, np.nan).tolist()}, payload))
     ctx.case((fmt, tuple(nums), kind, start), nontrivial=kind != "zero" or len(set(np.diff(nums))) > 1,
              branch="plan/%s/%s" % (fmt, kind))
 
@@ -214,7 +230,7 @@ def judge_plan(ctx, drv):
         w = fr(w)
         m_shift = [int(x) for x in shift.split(",")]
         model_pos = [f + float(x) for f, x in zip(fl, w)]
-        if any(abs(a - b) > 3e-4 for a, b in zip(model_pos, got["lat128"])):
+        if any(abs(a - b) > 3e-4 for a, b in zip(model_pos, got["lat128"]) if b == b):      # NaN: a flagged line's own row
             ctx.corr_break("plan: model fractional lines %s.., implementation %s.." % (model_pos[:3], got["lat128"][:3]), payload)
         if any(abs(a - b) > 1 for a, b in zip(m_shift, got["shift"])):
             ctx.corr_break("plan: model time shifts %s.., implementation %s.." % (m_shift[:3], got["shift"][:3]), payload)
